@@ -52,6 +52,15 @@ type FuncContract struct {
 	PubArgs   bool
 	Publishes []*SX
 	Used      bool
+	Implicit  bool
+	FrameOnly bool // verified for its frame only: may panic, callee preconditions are not obligations (callee ensures are assumed only under them)
+	FreshObjs []writeSpec // objects reachable from the results that the callee allocated (heap, address term over the post-state; -1 = none)
+	Writes    []writeSpec // single objects (heap, address term) the function may write besides its own allocations
+}
+
+type writeSpec struct {
+	Heap string
+	Term *SX
 }
 
 type freshSpec struct {
@@ -87,7 +96,7 @@ type Contracts struct {
 	Prelude []string // raw SMT text blocks from contract files (//@ smt ...)
 }
 
-var clauseHead = regexp.MustCompile(`^(func|extern|requires|ensures|panics|may_panic|modifies|loop|inline|trusted|pure|tags|ghost|let|global|lemma|axiom|fresh|unroll|noverify|calls|expect|smt|havoc_all|publishes)\b(\[[^\]]*\])?\s*(.*)$`)
+var clauseHead = regexp.MustCompile(`^(func|extern|requires|ensures|panics|may_panic|modifies|loop|inline|trusted|pure|tags|ghost|let|global|lemma|axiom|fresh|unroll|noverify|calls|expect|smt|havoc_all|publishes|writes|fresh_obj|frame_only)\b(\[[^\]]*\])?\s*(.*)$`)
 
 func loadContracts(files []string) (*Contracts, error) {
 	cs := &Contracts{Funcs: map[string]*FuncContract{}}
@@ -259,8 +268,31 @@ func (cs *Contracts) loadFile(path string) error {
 				}
 			case "may_panic":
 				c.MayPanic = true
+			case "frame_only":
+				c.MayPanic = true
+				c.FrameOnly = true
 			case "modifies":
 				c.Modifies = append(c.Modifies, strings.Fields(r.rest)...)
+			case "writes":
+				f := strings.SplitN(strings.TrimSpace(r.rest), " ", 2)
+				if len(f) != 2 {
+					return fmt.Errorf("%s: writes needs heap and address term", r.src)
+				}
+				t, err := parseSX(f[1])
+				if err != nil {
+					return fmt.Errorf("%s: %v", r.src, err)
+				}
+				c.Writes = append(c.Writes, writeSpec{f[0], t})
+			case "fresh_obj":
+				f := strings.SplitN(strings.TrimSpace(r.rest), " ", 2)
+				if len(f) != 2 {
+					return fmt.Errorf("%s: fresh_obj needs heap and address term", r.src)
+				}
+				t, err := parseSX(f[1])
+				if err != nil {
+					return fmt.Errorf("%s: %v", r.src, err)
+				}
+				c.FreshObjs = append(c.FreshObjs, writeSpec{f[0], t})
 			case "havoc_all":
 				c.HavocAll = true
 			case "publishes":
